@@ -5,7 +5,8 @@
    Part 4  similar code passes the same jump check; well-formedness of assembled compiled programs
    Part 5  assembling fails only for the three Go panics
    Part 6  compile_items erases to compile
-   Part 7  exactness (decode gives back the very code) and its refutation for -0.0 *)
+   Part 7  exactness (decode gives back the very code) and its refutation for a negative zero FIELD of a
+           by-value struct constant; 0.0 and -0.0 as constants of their own are kept apart (repaired defect) *)
 From Coq Require Import ZArith Bool List String Arith Floats Lia.
 Require Import X.Base.Num X.Base.NumProofs X.Base.Value X.Syn.Ast X.Sem.Prim X.Sem.Sem X.BC.Instr X.BC.Compiler X.BC.Decode
                X.BC.CompileProofs X.BC.Verify X.gen.GenOpcodes X.BC.Assemble.
@@ -39,11 +40,12 @@ Lemma encode16_value k : k mod 256 + 256 * (k / 256) = k.
 Proof. pose proof (Z.div_mod k 256). lia. Qed.
 
 Lemma pool_find_spec c : forall pool k0 k, pool_find c pool k0 = Some k ->
-  k0 <= k /\ exists d, nth_error pool (Z.to_nat (k - k0)) = Some d /\ const_go_eq d c = true.
+  k0 <= k /\ exists d, nth_error pool (Z.to_nat (k - k0)) = Some d /\ const_go_eq d c = true /\ const_class d = HKey.
 Proof.
   induction pool as [|d r IH]; intros k0 k H; cbn [pool_find] in H; [discriminate|].
-  destruct (const_go_eq d c) eqn:E.
-  - injection H as <-. split; [lia|]. exists d. rewrite Z.sub_diag. split; [reflexivity|exact E].
+  destruct (is_key d && const_go_eq d c) eqn:E.
+  - injection H as <-. apply andb_prop in E. destruct E as [Ek E]. split; [lia|]. exists d. rewrite Z.sub_diag.
+    split; [reflexivity|]. split; [exact E|]. unfold is_key in Ek. destruct (const_class d); try discriminate; reflexivity.
   - apply IH in H. destruct H as [Hk [d' [Hn He]]]. split; [lia|]. exists d'. split; [|exact He].
     replace (Z.to_nat (k - k0)) with (S (Z.to_nat (k - (k0 + 1)))) by lia. exact Hn.
 Qed.
@@ -57,20 +59,23 @@ Qed.
 
 (* what makeConstant returns: the pool grows at its end only, the index is in range and holds
    the constant itself or an earlier one that the index map considers equal *)
+Definition found (d c : const) : Prop :=
+  const_go_eq d c = true /\ const_class c = HKey /\ const_class d = HKey.
+
 Lemma intern_spec pool c pool' k : intern pool c = Some (pool', k) ->
   (pool' = pool \/ pool' = pool ++ [c]) /\ 0 <= k /\
-  exists d, nth_error pool' (Z.to_nat k) = Some d /\ (d = c \/ const_go_eq d c = true).
+  exists d, nth_error pool' (Z.to_nat k) = Some d /\ (d = c \/ found d c).
 Proof.
   unfold intern. intros H.
   assert (A : forall pool' k, pool_append pool c = Some (pool', k) ->
      (pool' = pool \/ pool' = pool ++ [c]) /\ 0 <= k /\
-     exists d, nth_error pool' (Z.to_nat k) = Some d /\ (d = c \/ const_go_eq d c = true)).
+     exists d, nth_error pool' (Z.to_nat k) = Some d /\ (d = c \/ found d c)).
   { intros p' k' Ha. apply pool_append_spec in Ha. destruct Ha as [-> [-> _]]. split; [right; reflexivity|]. split; [lia|].
     exists c. split; [|left; reflexivity]. rewrite Nat2Z.id, nth_error_app2 by lia. rewrite Nat.sub_diag. reflexivity. }
-  destruct (const_class c); [|apply A; exact H|discriminate].
+  destruct (const_class c) eqn:Hc; [|apply A; exact H|discriminate].
   destruct (pool_find c pool 0) as [j|] eqn:F; [|apply A; exact H].
-  injection H as <- <-. apply pool_find_spec in F. destruct F as [Hj [d [Hn He]]]. rewrite Z.sub_0_r in Hn.
-  split; [left; reflexivity|]. split; [lia|]. exists d. split; [exact Hn|right; exact He].
+  injection H as <- <-. apply pool_find_spec in F. destruct F as [Hj [d [Hn [He Hd]]]]. rewrite Z.sub_0_r in Hn.
+  split; [left; reflexivity|]. split; [lia|]. exists d. split; [exact Hn|right; repeat split; assumption].
 Qed.
 
 Lemma intern_grows pool c pool' k : intern pool c = Some (pool', k) -> exists ext, pool' = pool ++ ext.
@@ -86,9 +91,11 @@ Qed.
 
 (* ================================================================== Part 2 *)
 (* what decode may change: a pushed constant can come back as the earlier pool entry that Go's
-   index map found equal to it (vgo_eq: only a float zero of the other sign is not identical) *)
+   index map found equal to it: both are hashable keys (in particular no float zero of their own)
+   and vgo_eq; only by-value structs that differ in the sign of a zero field are then not identical *)
 Definition instr_simP (P : value -> Prop) (i i' : instr) : Prop :=
-  i' = i \/ exists v w, i = IPush v /\ i' = IPush w /\ vgo_eq w v = true /\ P w.
+  i' = i \/ exists v w, i = IPush v /\ i' = IPush w /\ vgo_eq w v = true /\
+                       const_class (CVal v) = HKey /\ const_class (CVal w) = HKey /\ P w.
 Definition linstr_simP (P : value -> Prop) (a b : linstr) : Prop := instr_simP P (fst a) (fst b) /\ snd a = snd b.
 Definition code_simP (P : value -> Prop) (C C' : code) : Prop := Forall2 (linstr_simP P) C C'.
 
@@ -97,7 +104,7 @@ Definition linstr_sim : linstr -> linstr -> Prop := linstr_simP (fun _ => True).
 Definition code_sim : code -> code -> Prop := code_simP (fun _ => True).
 
 Lemma instr_simP_mono (P Q : value -> Prop) i i' : (forall w, P w -> Q w) -> instr_simP P i i' -> instr_simP Q i i'.
-Proof. intros HPQ [->|[v [w [-> [-> [He Hp]]]]]]; [left; reflexivity|right; exists v, w; auto]. Qed.
+Proof. intros HPQ [->|[v [w [-> [-> [He [Hv [Hw Hp]]]]]]]]; [left; reflexivity|right; exists v, w; auto 7]. Qed.
 
 Lemma code_simP_mono (P Q : value -> Prop) C C' : (forall w, P w -> Q w) -> code_simP P C C' -> code_simP Q C C'.
 Proof.
@@ -162,7 +169,7 @@ Proof. destruct d as [w|m z|p]; cbn [const_go_eq]; try discriminate. intros H. e
 
 (* the operand decoder on the constant an instruction was assembled with *)
 Lemma operand_of_const i c k d :
-  ioperand i = ConstArg c -> (d = c \/ const_go_eq d c = true) ->
+  ioperand i = ConstArg c -> (d = c \/ found d c) ->
   exists i', instr_simP (fun w => d = CVal w) i i' /\
              forall cs, nth_const cs k = Some d -> operand_instr cs (iname i) k = OpI i'.
 Proof.
@@ -172,20 +179,21 @@ Proof.
   (* IPush *)
   1: { destruct Hd as [->|He].
        - exists (IPush v). split; [left; reflexivity|]. intros cs Hn. unfold operand_instr. cbn [String.eqb Ascii.eqb Bool.eqb andb]. rewrite Hn. reflexivity.
-       - apply go_eq_val in He. destruct He as [w [-> He]]. exists (IPush w). split; [right; exists v, w; auto|].
+       - destruct He as [He [Hcv Hcd]]. apply go_eq_val in He. destruct He as [w [-> He]]. exists (IPush w).
+         split; [right; exists v, w; auto 7|].
          intros cs Hn. unfold operand_instr. cbn [String.eqb Ascii.eqb Bool.eqb andb]. rewrite Hn. reflexivity. }
   (* string constants *)
-  all: try (assert (E : d = str_const name) by (destruct Hd as [->|He]; [reflexivity|apply go_eq_str; exact He]);
+  all: try (assert (E : d = str_const name) by (destruct Hd as [->|He]; [reflexivity|apply go_eq_str; exact (proj1 He)]);
             subst d; eexists; split; [left; reflexivity|]; intros cs Hn;
             unfold operand_instr; cbn [String.eqb Ascii.eqb Bool.eqb andb]; rewrite Hn; reflexivity).
-  all: try (assert (E : d = str_const k0) by (destruct Hd as [->|He]; [reflexivity|apply go_eq_str; exact He]);
+  all: try (assert (E : d = str_const k0) by (destruct Hd as [->|He]; [reflexivity|apply go_eq_str; exact (proj1 He)]);
             subst d; eexists; split; [left; reflexivity|]; intros cs Hn;
             unfold operand_instr; cbn [String.eqb Ascii.eqb Bool.eqb andb]; rewrite Hn; reflexivity).
   (* regexp *)
-  1: { destruct Hd as [->|He]; [|exfalso; eapply go_eq_regex; exact He].
+  1: { destruct Hd as [->|He]; [|exfalso; eapply go_eq_regex; exact (proj1 He)].
        eexists; split; [left; reflexivity|]. intros cs Hn. unfold operand_instr; cbn [String.eqb Ascii.eqb Bool.eqb andb]. rewrite Hn. reflexivity. }
   (* calls *)
-  all: assert (E : d = call_const name n) by (destruct Hd as [->|He]; [reflexivity|apply go_eq_call; exact He]);
+  all: assert (E : d = call_const name n) by (destruct Hd as [->|He]; [reflexivity|apply go_eq_call; exact (proj1 He)]);
        subst d; eexists; split; [left; reflexivity|]; intros cs Hn;
        unfold operand_instr; cbn [String.eqb Ascii.eqb Bool.eqb andb]; rewrite Hn; unfold call_const;
        replace (Z.of_nat n <? 0) with false by (symmetry; apply Z.ltb_ge; lia); rewrite Nat2Z.id; reflexivity.
@@ -682,23 +690,39 @@ Proof.
   - apply String.eqb_eq in H. subst. reflexivity.
 Qed.
 
-Lemma num_go_eq_eq a b : num_go_eq a b = true -> key_exact (VNum a) = true -> key_exact (VNum b) = true -> a = b.
+(* a float that is not a zero is identical to every float it is == to *)
+Lemma float_eqb_eq_nz f g : PrimFloat.eqb f g = true -> f_is_zero f = false -> f = g.
 Proof.
-  destruct a as [k z|k f], b as [k' z'|k' f']; cbn [num_go_eq key_exact]; try discriminate; intros H Ha Hb;
+  unfold f_is_zero. rewrite !float_eqb_SF. change (Prim2SF 0%float) with (S754_zero false).
+  intros He Hz. apply Prim2SF_inj.
+  destruct (Prim2SF f) as [sf| sf| |sf mf ef], (Prim2SF g) as [sg|sg| |sg mg eg];
+    unfold SFeqb in He, Hz; cbn [SFcompare] in He, Hz; try discriminate.
+  all: try (destruct sf; discriminate). all: try (destruct sg; discriminate).
+  - destruct sf, sg; try discriminate; reflexivity.
+  - destruct sf, sg; try discriminate.
+    + destruct (Z.compare ef eg) eqn:Ez; try discriminate. apply Z.compare_eq in Ez. subst.
+      destruct (Pos.compare_cont Eq mf mg) eqn:Em; try discriminate. apply Pos.compare_eq in Em. subst. reflexivity.
+    + destruct (Z.compare ef eg) eqn:Ez; try discriminate. apply Z.compare_eq in Ez. subst.
+      destruct (Pos.compare_cont Eq mf mg) eqn:Em; try discriminate. apply Pos.compare_eq in Em. subst. reflexivity.
+Qed.
+
+Lemma num_field_eq a b : num_go_eq a b = true -> field_exact (VNum a) = true -> field_exact (VNum b) = true -> a = b.
+Proof.
+  destruct a as [k z|k f], b as [k' z'|k' f']; cbn [num_go_eq field_exact]; try discriminate; intros H Ha Hb;
     apply andb_prop in H; destruct H as [Hk H]; apply kind_eqb_eq in Hk; subst k'.
   - apply Z.eqb_eq in H. subst. reflexivity.
   - f_equal. apply float_eqb_eq; [exact H|apply negb_true_iff; exact Ha|apply negb_true_iff; exact Hb].
 Qed.
 
-(* two constants that the index map merges are identical unless a negative zero is involved *)
-Lemma vgo_eq_eq : forall w v, vgo_eq w v = true -> key_exact w = true -> key_exact v = true -> w = v.
+(* inside a struct: two values that Go's == identifies are identical unless a negative zero is involved *)
+Lemma field_eq : forall w v, vgo_eq w v = true -> field_exact w = true -> field_exact v = true -> w = v.
 Proof.
   fix IH 1. intros w v.
   destruct w as [|wb|wn|ws|we wl|we|wk wt wm|wname wptr wfields|wt|wk wt|wname wt|wname wx|wd],
            v as [|vb|vn|vs|ve vl|ve|vk vt vm|vname vptr vfields|vt|vk vt|vname vt|vname vx|vd];
     cbn [vgo_eq]; try discriminate; intros H Hw Hv; try reflexivity.
   - apply Bool.eqb_prop in H. subst. reflexivity.
-  - f_equal. apply num_go_eq_eq; assumption.
+  - f_equal. apply num_field_eq; assumption.
   - apply String.eqb_eq in H. subst. reflexivity.
   - destruct wptr; discriminate.
   - destruct wptr; discriminate.
@@ -709,7 +733,7 @@ Proof.
   - destruct wptr; discriminate.
   - destruct wptr; [discriminate|]. destruct vptr; [discriminate|].
     apply andb_prop in H. destruct H as [Hn H]. apply String.eqb_eq in Hn. subst vname. f_equal.
-    cbn [key_exact] in Hw, Hv. revert vfields H Hw Hv.
+    cbn [field_exact] in Hw, Hv. revert vfields H Hw Hv.
     induction wfields as [|[n1 x] r1 IHl]; intros [|[n2 y] r2] H Hw Hv; try discriminate; [reflexivity|].
     apply andb_prop in H. destruct H as [H H3]. apply andb_prop in H. destruct H as [H1 H2].
     apply andb_prop in Hw. destruct Hw as [Hw1 Hw2]. apply andb_prop in Hv. destruct Hv as [Hv1 Hv2].
@@ -721,8 +745,43 @@ Proof.
   - destruct wptr; discriminate.
   - apply asm_ty_eqb_eq in H. subst. reflexivity.
   - apply andb_prop in H. destruct H as [Hn H]. apply String.eqb_eq in Hn. subst vname. f_equal.
-    cbn [key_exact] in Hw, Hv. apply IH; assumption.
+    cbn [field_exact] in Hw, Hv. apply IH; assumption.
 Qed.
+
+(* constants of their own: a float zero is never a key, so only struct fields need the carve-out *)
+Lemma key_eq : forall w v, vgo_eq w v = true -> float_zero w = false -> float_zero v = false ->
+  key_exact w = true -> key_exact v = true -> w = v.
+Proof.
+  induction w as [|wb|wn|ws|we wl|we|wk wt wm|wname wptr wfields|wt|wk wt|wname wt|wname wx IHw|wd];
+    intros v; destruct v as [|vb|vn|vs|ve vl|ve|vk vt vm|vname vptr vfields|vt|vk vt|vname vt|vname vx|vd];
+    cbn [vgo_eq]; try discriminate; intros H Zw Zv Hw Hv; try reflexivity.
+  - apply Bool.eqb_prop in H. subst. reflexivity.
+  - f_equal. destruct wn as [k z|k f], vn as [k' z'|k' f']; cbn [num_go_eq] in H; try discriminate;
+      apply andb_prop in H; destruct H as [Hk H]; apply kind_eqb_eq in Hk; subst k'.
+    + apply Z.eqb_eq in H. subst. reflexivity.
+    + f_equal. cbn [float_zero] in Zw. apply float_eqb_eq_nz; assumption.
+  - apply String.eqb_eq in H. subst. reflexivity.
+  - destruct wptr; discriminate.
+  - destruct wptr; discriminate.
+  - destruct wptr; discriminate.
+  - destruct wptr; discriminate.
+  - destruct wptr; discriminate.
+  - destruct wptr; discriminate.
+  - destruct wptr; discriminate.
+  - destruct wptr; [discriminate|]. destruct vptr; [discriminate|].
+    apply field_eq; [exact H|exact Hw|exact Hv].
+  - destruct wptr; discriminate.
+  - destruct wptr; discriminate.
+  - destruct wptr; discriminate.
+  - destruct wptr; discriminate.
+  - destruct wptr; discriminate.
+  - apply asm_ty_eqb_eq in H. subst. reflexivity.
+  - apply andb_prop in H. destruct H as [Hn H]. apply String.eqb_eq in Hn. subst vname. f_equal.
+    cbn [float_zero key_exact] in Zw, Zv, Hw, Hv. apply IHw; assumption.
+Qed.
+
+Lemma class_key_nz v : const_class (CVal v) = HKey -> float_zero v = false.
+Proof. unfold const_class. destruct (slice_or_map v), (float_zero v); cbn [orb]; try discriminate. reflexivity. Qed.
 
 (* every pool entry is the constant of some item *)
 Lemma in_intern_unbounded d pool c : In d (intern_unbounded pool c) -> In d pool \/ d = c.
@@ -767,21 +826,22 @@ Proof.
   destruct H as [H|H]; [injection H as -> ->; left; reflexivity|right; apply IH; exact H].
 Qed.
 
-(* exactness: without a negative zero among the constants, decode returns the code itself *)
+(* exactness: decode returns the code itself unless a by-value struct constant has a negative zero field *)
 Theorem decode_assemble_items_exact its p :
   assemble_items its = Some p -> items_keys_exact its = true -> decode p = DOk (items_code its).
 Proof.
   intros Ha Hex. destruct (decode_assemble_itemsP _ _ Ha) as [C' [Hd Hs]].
   rewrite Hd. f_equal. symmetry. eapply Forall2_eq_in; [exact Hs|].
   intros [i l] [i' l'] Hin [Hi Hl]. cbn [fst snd] in Hi, Hl. subst l'.
-  destruct Hi as [->|[v [w [-> [-> [He Hp]]]]]]; [reflexivity|].
+  destruct Hi as [->|[v [w [-> [-> [He [Hcv [Hcw Hp]]]]]]]]; [reflexivity|].
   assert (Hpool : p_consts p = pool_of its []).
   { unfold assemble_items in Ha. destruct (asm its [] 0) as [[[bs pool] locs]|] eqn:A; [|discriminate].
     injection Ha as <-. apply asm_some in A. cbn [p_consts]. tauto. }
   rewrite Hpool in Hp. apply in_pool_of in Hp. destruct Hp as [[]|[x [Hx Hc]]].
   pose proof (items_keys_exact_in _ Hex x _ Hx Hc) as Hw.
   pose proof (items_keys_exact_in _ Hex (AIns (IPush v) l) (CVal v) (in_items_code _ _ _ Hin) eq_refl) as Hv.
-  cbn [const_exact] in Hw, Hv. rewrite (vgo_eq_eq w v He Hw Hv). reflexivity.
+  cbn [const_exact] in Hw, Hv.
+  rewrite (key_eq w v He (class_key_nz _ Hcw) (class_key_nz _ Hcv) Hw Hv). reflexivity.
 Qed.
 
 Theorem decode_assemble_exact C p :
@@ -790,23 +850,40 @@ Proof.
   unfold assemble, code_keys_exact. intros Ha Hex. rewrite (decode_assemble_items_exact _ _ Ha Hex). rewrite items_code_of_code. reflexivity.
 Qed.
 
-(* the unrestricted statement is false: 0.0 and -0.0 are one constant for makeConstant *)
+(* the unrestricted statement is still false: two by-value struct constants that differ in the sign
+   of a zero field are one key for Go's index map *)
 Definition decode_assemble_exact_full_statement : Prop :=
   forall C p, assemble C = Some p -> decode p = DOk C.
 
-Definition negzero_code : code :=
-  [(IPush (VNum (NFlt KF64 0%float)), noloc); (IPush (VNum (NFlt KF64 (-0)%float)), noloc)].
+Definition zero_struct (f : float) : value := VStruct "T" false [("X", VNum (NFlt KF64 f))].
+Definition negzero_struct_code : code :=
+  [(IPush (zero_struct 0%float), noloc); (IPush (zero_struct (-0)%float), noloc)].
 
-Lemma negzero_merges :
-  exists p, assemble negzero_code = Some p /\
-            decode p = DOk [(IPush (VNum (NFlt KF64 0%float)), noloc); (IPush (VNum (NFlt KF64 0%float)), noloc)].
+Lemma negzero_field_merges :
+  exists p, assemble negzero_struct_code = Some p /\
+            decode p = DOk [(IPush (zero_struct 0%float), noloc); (IPush (zero_struct 0%float), noloc)].
 Proof. eexists. split; vm_compute; reflexivity. Qed.
 
 Theorem decode_assemble_exact_refuted : ~ decode_assemble_exact_full_statement.
 Proof.
-  intros H. destruct negzero_merges as [p [Ha Hd]]. specialize (H _ _ Ha). rewrite Hd in H.
-  injection H as H. apply (f_equal (fun f => PrimFloat.ltb (1 / f) 0)) in H. vm_compute in H. discriminate.
+  intros H. destruct negzero_field_merges as [p [Ha Hd]]. specialize (H _ _ Ha). rewrite Hd in H.
+  apply (f_equal (fun r => match r with
+                           | DOk [_; (IPush (VStruct _ _ [(_, VNum (NFlt _ f))]), _)] => PrimFloat.ltb (1 / f) 0
+                           | _ => false
+                           end)) in H.
+  vm_compute in H. discriminate.
 Qed.
+
+(* the repaired defect: 0.0 and -0.0 as constants of their own are two pool entries (before the repair
+   "0.0 and -0.0 do not share a constant-pool entry" the second push came back as 0.0) *)
+Definition negzero_code : code :=
+  [(IPush (VNum (NFlt KF64 0%float)), noloc); (IPush (VNum (NFlt KF64 (-0)%float)), noloc)].
+
+Lemma negzero_kept_apart :
+  exists p, assemble negzero_code = Some p /\
+            p_consts p = [CVal (VNum (NFlt KF64 0%float)); CVal (VNum (NFlt KF64 (-0)%float))] /\
+            code_keys_exact negzero_code = true /\ decode p = DOk negzero_code.
+Proof. eexists. vm_compute. repeat split; reflexivity. Qed.
 
 (* ================================================================== the byte-level Compile *)
 Theorem compile_bytes_decodes mapenv c e p : compile_bytes mapenv c e = Some p ->
@@ -855,7 +932,10 @@ Proof.
 Qed.
 
 Lemma int_const_ok a z : const_ok (CVal (int_const a z)) = true.
-Proof. unfold int_const. destruct (akind a) as [| |k| | | | | | | |]; try reflexivity. destruct (is_float k); reflexivity. Qed.
+Proof.
+  unfold int_const. destruct (akind a) as [| |k| | | | | | | |]; try reflexivity. destruct (is_float k); [|reflexivity].
+  unfold const_ok, const_class. cbn [slice_or_map float_zero orb]. destruct (f_is_zero (fround k (f_of_Z z))); reflexivity.
+Qed.
 
 Section AllOk.
 Variable mapenv : bool.
@@ -893,7 +973,8 @@ Proof.
   - reflexivity.
   - cbn [compile_items compile]. destruct mapenv; [|destruct nilsafe]; reflexivity.
   - cbn [compile_items compile at_ map items_of_code fst snd forallb item_ok ioperand]. rewrite int_const_ok. reflexivity.
-  - reflexivity.
+  - cbn [compile_items compile at_ map items_of_code fst snd forallb item_ok ioperand].
+    unfold const_ok, const_class. cbn [slice_or_map float_zero orb]. destruct (f_is_zero f); reflexivity.
   - cbn [compile_items compile]. destruct b; reflexivity.
   - reflexivity.
   - cbn [compile_items compile at_ map items_of_code fst snd forallb item_ok].
@@ -1051,30 +1132,4 @@ Proof.
   intros H. injection H as <-. cbn [p_bytes p_consts]. split.
   - eapply asm_bytes; [|exact A]. cbn. unfold max_uint16. lia.
   - apply asm_some in A. destruct A as [_ [_ Hl]]. apply Hl. cbn. unfold max_uint16. lia.
-Qed.
-
-(* ================================================================== only registered constants are found *)
-(* the index map only holds hashable keys: an entry that const_go_eq finds equal to something is
-   compared by contents (never a slice, a map, a func, a pointer or an opaque value) *)
-Lemma vgo_eq_class : forall w v, vgo_eq w v = true -> field_class w = KVal /\ slice_or_map w = false.
-Proof.
-  fix IH 1. intros w v.
-  destruct w as [|wb|wn|ws|we wl|we|wk wt wm|wname wptr wfields|wt|wk wt|wname wt|wname wx|wd];
-    cbn [vgo_eq]; try discriminate; try (intros _; split; reflexivity).
-  - destruct wptr; [discriminate|].
-    destruct v as [|vb|vn|vs|ve vl|ve|vk vt vm|vname vptr vfields|vt|vk vt|vname vt|vname vx|vd]; try discriminate.
-    destruct vptr; [discriminate|]. intros H. apply andb_prop in H. destruct H as [_ H]. split; [|reflexivity].
-    cbn [field_class]. revert vfields H.
-    induction wfields as [|[n1 x] r1 IHl]; intros [|[n2 y] r2] H; try discriminate; [reflexivity|].
-    apply andb_prop in H. destruct H as [H H3]. apply andb_prop in H. destruct H as [H1 H2].
-    destruct (IH x y H2) as [Hx _]. rewrite Hx, (IHl r2 H3). reflexivity.
-  - destruct v as [|vb|vn|vs|ve vl|ve|vk vt vm|vname vptr vfields|vt|vk vt|vname vt|vname vx|vd]; try discriminate.
-    intros H. apply andb_prop in H. destruct H as [_ H]. cbn [field_class slice_or_map]. apply (IH wx vx H).
-Qed.
-
-Lemma go_eq_only_keys d c : const_go_eq d c = true -> d <> CVal VNil -> const_class d = HKey.
-Proof.
-  destruct d as [w|n z|p], c as [v|n' z'|p']; cbn [const_go_eq]; try discriminate; intros H Hn; [|reflexivity].
-  apply vgo_eq_class in H. destruct H as [Hf Hs]. unfold const_class. rewrite Hs, Hf.
-  destruct w; try reflexivity. exfalso. apply Hn. reflexivity.
 Qed.
